@@ -26,7 +26,7 @@ CLAIMED = {
             "node; who-may-write the id counter and node table), CFG must-pass-through of optimize_remaining_by_size "
             "before every hand-out of a path, path-sensitive guard of flops-limited runs, completion branches of the "
             "tree builders on every path, guard of the one-community partition result"
-            "; coverage of the leftover heap; dominance of every builder return by its completing loop; copy-completeness of the path simulator (each slot from the same slot of the source); guard analysis of constant subscripts on the caller's explicit path; positive-floor analysis of logarithm arguments fed by a zero-initialised counter; typestate of the set of nodes still to divide incl. its initial state; sibling progress-escape of partition-driven loops; CFG must-pass-through of a keyed store between an empty tally and the pick"),
+            "; coverage of the leftover heap; dominance of every builder return by its completing loop; copy-completeness of the path simulator (each slot from the same slot of the source); guard analysis of constant subscripts on the caller's explicit path; positive-floor analysis of logarithm arguments fed by a zero-initialised counter; typestate of the set of nodes still to divide incl. its initial state; sibling progress-escape of partition-driven loops; CFG must-pass-through of a keyed store between an empty tally and the pick; sign-domain analysis of logarithm arguments in the greedy score; memoised factories of result-carrying optimizers (shared with C16)"),
     "C06": ("4 C06", "write-discipline of the sliced-index table (sorted rebuild only, SliceInfo field order) and pairing "
             "of sliced_inputs updates, chunk-key/slice-number agreement, exponent-aware combination sites"
             "; partial evaluation of every enumeration of slice numbers; recurrence of the strides and digit/remainder order of the mixed-radix decoding; storage ownership of yielded chunks; may-alias analysis of in-place writes in the adder and the gatherer (parameters, unpackings, elements, iteration)"),
@@ -39,21 +39,21 @@ CLAIMED = {
     "C09": ("4 C09", "abstract interpretation of the six sibling step-cost functions into cost signatures compared with "
             "the objectives' definitions and with the name dispatch; CFG/guard analysis of the DP (memo overwrite "
             "guard and tuple layout, sieve skip, early exits, outer-product flag); partial evaluation of the "
-            "bipartition range expressions; must-pass-through of the cap widening; option integrity (no re-binding of the objective / outer-product option, unchanged hand-over to delegates); provenance of the batch-index test (carriers vs appearance table)"),
+            "bipartition range expressions; must-pass-through of the cap widening; option integrity (no re-binding of the objective / outer-product option, unchanged hand-over to delegates); provenance of the batch-index test (carriers vs appearance table); integrity of the network handed to the processor"),
     "C10": ("4 C10", "typestate of the depth-first traversal's ready set and guard of its yield; sibling cross-check of the "
             "recycled-id protocol (descending removal, positions before removal, append) over every pop/append loop; "
             "CFG pairing of single-assignment id counters with their uses; linear-form check of get_ssa_path's id"
-            "; def-use provenance of converted paths (caller-supplied paths need the input count); positional del treated as removal; sample evaluation of the inferred input count against its definition; ad-hoc per-node cache keys (shared with C02)"),
+            "; def-use provenance of converted paths (caller-supplied paths need the input count); positional del treated as removal; sample evaluation of the inferred input count against its definition; ad-hoc per-node cache keys (shared with C02); truth-value uses of path parameters; per-call dispatch of explicit paths (shared with C13)"),
     "C11": ("4 C11", "abstract interpretation of the batched-matmul planner's layout expressions into sequences of "
             "index-group symbols (groups identified by their filling conditions) checked against the matmul contract; "
             "direction analysis of every transposition tuple; stage/position agreement of the single-operand planner "
             "and executor by construction/usage kinds; exception-type and normalisation discipline of tensordot's axes"
-            "; stage extraction of the executor (guard, polarity, order) matched against the plan by construction/usage roles; structural clauses of the pure-multiplication plan and of the tensordot equation; permutation guard of transposition-only plans; module-wide scan of transposition tuples in both spellings"),
+            "; stage extraction of the executor (guard, polarity, order) matched against the plan by construction/usage roles; structural clauses of the pure-multiplication plan and of the tensordot equation; permutation guard of transposition-only plans; module-wide scan of transposition tuples in both spellings; def-use provenance of every returned plan from the equation's output; sample execution of the diagonal layout bookkeeping by a string evaluator; multiplicity discipline of the classification loops; blacklist of conjugating / flattening primitives"),
     "C12": ("4 C12", "structural and partially-evaluated checks of the front end's rewrites: statement-order and guard of "
             "the fresh-symbol choice, partial evaluation of the ellipsis slice and of the interleaved index expressions, "
             "sibling agreement of the implicit-output implementations, guard/direction of the single-operand fast paths, "
             "def-use check that every label-carrying argument passes the one renaming map"
-            "; form-independent partial evaluation of the interleaved form (loop or strided slices); routine used for implicit outputs of the label interface; CFG must-pass-through of a blank-stripping re-binding between the caller's subscripts string and its splitter; completeness of the ellipsis symbol list before operands are replaced"),
+            "; form-independent partial evaluation of the interleaved form (loop or strided slices); routine used for implicit outputs of the label interface; CFG must-pass-through of a blank-stripping re-binding between the caller's subscripts string and its splitter; completeness of the ellipsis symbol list before operands are replaced; conventions of the pairwise backend (shared with C01/C11)"),
     "C13": ("4 C13", "cache-key completeness/injectivity by def-use dependence, sibling TypeError fallback, purity and "
             "result-immutability of lru_cached parsers, array-taint of cached callables"
             "; computed layering of memo functions below cache tables and joint invalidation; memo-key carrier analysis of the per-tree contractor memo (shared with C02)"),
@@ -64,20 +64,20 @@ CLAIMED = {
             "reader maps corrupt entries to KeyError on all paths"
             "; writer never deletes an entry path; presence decided by the entry file alone; def-use dependence of the temporary's name on per-writer identity inside the writing function; copying routines as in-place writers"),
     "C16": ("4 C16", "thread-keyed / content-addressed store discipline of per-query state and carry-over (result-"
-            "carrying attribute) analysis over the call graph; class-level mutable containers mutated through self (all classes, built-in positive example); CFG path analysis of the searched-flag including exceptional edges out of the run"),
+            "carrying attribute) analysis over the call graph; class-level mutable containers mutated through self (all classes, built-in positive example); CFG path analysis of the searched-flag including exceptional edges out of the run; memoised factories returning result-carrying instances"),
     "C17": ("4 C17", "seed plumbing over the resolved call graph, no global-RNG use under seeded entries, "
             "named-preset resolution (register_preset table) for sub-optimizers of seeded operations, "
             "flow-sensitive hash-ordered iteration classification; per-class collection of tables keyed by label sets and consumer classification inside the ranking functions applied to their items"),
     "C18": ("4 C18", "sibling cross-check of the index-survival predicates and appearance tables of the cost simulators; "
             "uncompensated index drop reachability"
-            "; symbolic case analysis (index on left / right / both) of the annealing move evaluator against the survival rule"),
+            "; symbolic case analysis (index on left / right / both) of the annealing move evaluator against the survival rule; freshness of the sub-optimizer behind stored scores (shared with C16)"),
     "C19": ("4 C19", "every per-slice combination site uses the exponent-aware adder; normalise/accumulate pairing; "
             "rescale-before-stack dominance and form; scale measure and zero sentinel; option reaches every expression branch"
             "; guard of the zero early-out; may-alias taint of in-place writes in the executor; sibling agreement in kind (array vs bare number) of the executor's stripped returns against the stacking consumer"),
     "C20": ("4 C20", "taint of the bond cap chi (reaches sizes only through min()/comparison); sibling cross-checks of "
             "compress vs its cost estimate, hypergraph vs tree survival rule, exact vs compressed size range; "
             "ownership (freshness) of the simulator's size table; unary-step handling of path consumers"
-            "; symbolic evaluation of the compressed tracker's update methods (ledger of the simulated steps)"),
+            "; symbolic evaluation of the compressed tracker's update methods (ledger of the simulated steps); dominance / post-dominance bracketing of every simulated compress and contract by the tracker's update calls"),
 }
 
 LEVEL_TEXT = {
